@@ -37,10 +37,13 @@ def run(chk):
     chk.rule('C07-P6', 'stripe key = min(int(pos[i,coord] * npartition / boxsize), npartition - 1)', 1)
     chk.rule('C07-P7', 'the scatter writes only rows round(p)-1 .. round(p)+1 of each axis', 1)
     chk.rule('C07-P8', 'no store under prange in the TSC pipeline is shared between iterations', 5)
+    chk.rule('C07-P9', 'the stripes hold the same particles as the input, each with its own weight, for every sort option (obligations of C17-R2/R3/R4)', 6)
     chk.assume('stripe lemma (exact arithmetic): stripes >= 3 cells wide and two apart have disjoint 3-cell clouds; P even (or 1) separates stripes 0 and P-1 across the periodic boundary')
     chk.assume('float32 rounding of the stripe key against the grid coordinate at exact half-cell boundaries is not modelled')
     chk.assume('numba joins all threads at the end of a prange loop')
     validation(chk)
+    from . import c17
+    chk.import_from(c17.run, 'C17', ('C17-R2', 'C17-R3', 'C17-R4'), 'C07-P9')
     schedule(chk)
     plumbing(chk)
     ownership(chk)
